@@ -64,6 +64,12 @@ structure Cfg where
 def Cfg.pinned : Cfg := ⟨false, false, false, false, false, false, none⟩
 def Cfg.patched : Cfg := ⟨true, true, true, true, true, true, none⟩
 
+/-- every configuration that has the four fixes the *belief* invariant depends on (F02, F03, F78,
+F79); the clone flag fix (F17), the bulk notifications and the ambient `allow_partial` scope are
+free. `Cfg.patched = Cfg.fixedWith true true none`. -/
+def Cfg.fixedWith (listCloneSealed notifyBulk : Bool) (scope : Option Bool) : Cfg :=
+  ⟨true, true, listCloneSealed, true, true, notifyBulk, scope⟩
+
 /-- The object classes: 0 and 1 are the test classes of the harness (fields `k0 k1` / `k0 k1 k2`,
 all `Any`, default None, `allow_symbolic_assignment = True`); 2 is `pg.Ref`, 3 is
 `pg.symbolic.ValueFromParentChain` (no symbolic fields, not assignable). -/
